@@ -1,6 +1,6 @@
 (* C05: trader actions never leave the trader under-margined.  Statements only. *)
 From MP.Model Require Import Prelude U128 SInt Feed Vamm VammOps Token World Engine Runtime.
-From MP.Proofs Require Import Tactics EngineGuards EngineArith CloseFacts MoreFacts.
+From MP.Proofs Require Import Tactics EngineGuards EngineArith CloseFacts MoreFacts OpenRatioFacts.
 
 (* leverage below 1 or above 1/initial-margin-ratio is rejected *)
 Theorem C05_leverage_bounds : forall w t v s m l lim f r,
@@ -47,3 +47,14 @@ Theorem C05_deposit : forall w t v amount funds w' msgs,
     (if t_native (w_tok w) then funds = amount /\ msgs = [] else msgs = [execute_transfer_from w t A_ENGINE amount]).
 Proof. exact deposit_margin_spec. Qed.
 Print Assumptions C05_deposit.
+
+(* END TO END.  A successful OpenPosition transaction - the whole message tree (swap, reply, a reversal's
+   second swap and reply, fee and margin transfers, insurance-fund draws), for every fault index - leaves
+   the sender either without a position on that vAMM or with one whose margin ratio, recomputed on the
+   final state of the transaction, is not below the maintenance ratio.  No side condition. *)
+Theorem C05_open_position_ends_margined : forall f w t v s m l lim funds w',
+  exec_op f w (OEngine t (EOpenPosition v s m l lim) funds) = Ok w' ->
+  sval (p_size (read_position (w_eng w') v t)) = 0 \/
+  exists mr, query_margin_ratio w' v t = Ok mr /\ sltb mr (spos (e_maint (ec (w_eng w')))) = false.
+Proof. exact open_position_ends_margined. Qed.
+Print Assumptions C05_open_position_ends_margined.
